@@ -16,6 +16,10 @@ def ev(e, env):
     """Evaluate a boolean/comparison expression over an abstract valuation (names -> small values)."""
     if isinstance(e, ast.Constant):
         return e.value
+    if isinstance(e, (ast.Call, ast.Subscript, ast.IfExp, ast.Attribute)):
+        d_ = ast.unparse(e)
+        if d_ in env:                     # an abstracted sub-expression (the valuation names it by its source text)
+            return env[d_]
     if isinstance(e, ast.Name):
         if e.id in env:
             return env[e.id]
@@ -63,6 +67,10 @@ def ev(e, env):
                 ok = (left in right) == isinstance(op, ast.In)
             elif isinstance(op, (ast.Lt, ast.LtE, ast.Gt, ast.GtE)) and isinstance(left, (int, bool)) and isinstance(right, (int, bool)):
                 ok = {ast.Lt: left < right, ast.LtE: left <= right, ast.Gt: left > right, ast.GtE: left >= right}[type(op)]
+            elif isinstance(op, (ast.Lt, ast.LtE, ast.Gt, ast.GtE)) and isinstance(left, tuple) and isinstance(right, tuple) \
+                    and all(isinstance(v_, (int, bool)) for v_ in left + right):
+                # tuples of integers are ordered lexicographically (this is what Python does, which is the point of evaluating it)
+                ok = {ast.Lt: left < right, ast.LtE: left <= right, ast.Gt: left > right, ast.GtE: left >= right}[type(op)]
             else:
                 raise EvUnk(f"operator {type(op).__name__}")
             if not ok:
@@ -74,10 +82,14 @@ def ev(e, env):
     if isinstance(e, (ast.Set, ast.Tuple, ast.List)) and all(isinstance(x, ast.Constant) for x in e.elts):
         vals = [x.value for x in e.elts]
         return frozenset(vals) if isinstance(e, ast.Set) else tuple(vals)
+    if isinstance(e, (ast.Tuple, ast.List)) and not any(isinstance(x, ast.Starred) for x in e.elts):
+        return tuple(ev(x, env) for x in e.elts)
     if isinstance(e, ast.Subscript):
         d = ast.unparse(e)
-        if d in env:
-            return env[d]
+        if isinstance(e.slice, ast.Constant) and isinstance(e.slice.value, int):
+            base = ev(e.value, env)
+            if isinstance(base, tuple) and -len(base) <= e.slice.value < len(base):
+                return base[e.slice.value]
         raise EvUnk(f"subscript {d}")
     if isinstance(e, ast.BinOp) and isinstance(e.op, (ast.Add, ast.Sub, ast.Mult, ast.Pow, ast.LShift, ast.FloorDiv)):
         l, r = ev(e.left, env), ev(e.right, env)
